@@ -239,13 +239,129 @@ class TransformCase(Case):
         if self.L:
             Ao = np.asarray(vals(cb.linear_constraints.coefficients), dtype=object)
             lo_l, hi_l = np.asarray(vals(cb.linear_constraints.lower_bounds), dtype=object), np.asarray(vals(cb.linear_constraints.upper_bounds), dtype=object)
-            for i in range(self.L):
+            finite = all(x.inf == 0 for x in Ao.flat)
+            props.append(("linear.transformed_coefficients_are_finite", And(SB(finite), *[Not(isnan(x)) for x in Ao.flat])))
+            for i in range(self.L if finite else 0):
                 vu = ssum([inp["A"][i, j] * y[j] for j in range(N)])
                 vo = ssum([Ao[i, j] * yo[j] for j in range(N)])
                 props.append((f"linear{i}.feasible_iff_image_feasible",
                               Iff(And(vu >= inp["llo"][i], vu <= inp["lhi"][i]), And(vo >= lo_l[i], vo <= hi_l[i]))))
         # 4. to_optimizer / from_optimizer is the identity
         same_arrays("to_from_identity", np.array([inp["z"][0, 0, j] for j in range(N)], dtype=object), oc.value["ident"])
+        return props
+
+    def observe(self, env, inp, oc):
+        return {}
+
+
+class FullValidationCase(Case):
+    """The public route: EnOptConfig.model_validate(<plain dict>, context=transforms).  Whatever the dict leaves to
+    defaults (no `gradient` section at all, an empty one) must end up in the optimizer domain like explicit settings."""
+
+    family = "transforms/validation-route"
+
+    def __init__(self, cid, gradient="absent"):
+        self.id, self.gradient = cid, gradient
+        self.x0, self.lb, self.ub = [0.5, -1.0], [-2.0, -3.0], [4.0, 1.0]
+
+    def describe(self):
+        return f"model_validate(dict, context=transforms), gradient section: {self.gradient}"
+
+    def inputs(self, env):
+        return {"s": env.reals("s", 2, lo=Fraction(1, 10), hi=10), "o": env.reals("o", 2, lo=-5, hi=5)}
+
+    def run(self, env, inp):
+        from ropt.config.enopt import EnOptConfig
+
+        d = {"variables": {"initial_values": list(self.x0), "lower_bounds": list(self.lb), "upper_bounds": list(self.ub)}}
+        if self.gradient == "empty":
+            d["gradient"] = {}
+        elif self.gradient == "explicit":
+            d["gradient"] = {"perturbation_magnitudes": 0.005}
+        tr = ens.make_transforms(var_scales=env.arr(inp["s"]), var_offsets=env.arr(inp["o"]))
+        return EnOptConfig.model_validate(d, context=tr)
+
+    def props(self, env, inp, oc):
+        if not oc.ok:
+            return [("no_internal_exception:" + type(oc.exc).__name__, SB(False))]
+        cfg = oc.value
+        s_, o_ = inp["s"], inp["o"]
+        props = []
+        m = np.asarray(vals(cfg.gradient.perturbation_magnitudes), dtype=object)
+        props.append(("magnitudes.one_per_variable", SB(m.shape == (2,))))
+        x = np.asarray(vals(cfg.variables.initial_values), dtype=object)
+        lo, hi = np.asarray(vals(cfg.variables.lower_bounds), dtype=object), np.asarray(vals(cfg.variables.upper_bounds), dtype=object)
+        for j in range(2):
+            if m.shape == (2,):
+                props.append((f"v{j}.default_magnitude_in_optimizer_units", close(m[j] * s_[j], SR(Fraction(5, 1000)))))
+            props.append((f"v{j}.initial_value_in_optimizer_units", close(x[j] * s_[j] + o_[j], SR(Fraction(self.x0[j])))))
+            props.append((f"v{j}.bounds_in_optimizer_units", And(close(lo[j] * s_[j] + o_[j], SR(Fraction(self.lb[j]))),
+                                                                  close(hi[j] * s_[j] + o_[j], SR(Fraction(self.ub[j]))))))
+        return props
+
+    def observe(self, env, inp, oc):
+        return {}
+
+
+class BasicRouteCase(Case):
+    """BasicOptimizer(<plain dict>, evaluator, transforms=...): the algorithm starts from the image of the configured
+    initial values, so the evaluator is asked at the user's initial values, exactly as without transforms."""
+
+    family = "transforms/basic-optimizer-route"
+
+    def __init__(self, cid, prevalidated=False):
+        self.id, self.prevalidated = cid, prevalidated
+        self.x0 = [0.5, -1.0]
+
+    def describe(self):
+        return f"BasicOptimizer with transforms, configuration given as {'a validated EnOptConfig' if self.prevalidated else 'a plain dict'}"
+
+    def inputs(self, env):
+        return {"s": env.reals("s", 2, lo=Fraction(1, 10), hi=10), "o": env.reals("o", 2, lo=-5, hi=5)}
+
+    def run(self, env, inp):
+        from ropt.config.enopt import EnOptConfig
+        from ropt.evaluator import EvaluatorResult
+        from ropt.plan import BasicOptimizer
+
+        d = {"variables": {"initial_values": list(self.x0), "lower_bounds": [-2.0, -3.0], "upper_bounds": [4.0, 1.0]},
+             "optimizer": {"method": "symstub/x"}}
+        tr = ens.make_transforms(var_scales=env.arr(inp["s"]), var_offsets=env.arr(inp["o"]))
+        rows, seen = [], {}
+
+        def evaluator(variables, context):
+            rows.append(variables)
+            n = variables.shape[0]
+            return EvaluatorResult(objectives=env.const(np.ones((n, 1))))
+
+        def script(opt, x0):
+            seen["x0"] = x0
+            opt.callback(x0, return_functions=True, return_gradients=False)
+
+        pm = ens.stub_optimizer_manager()
+        ens.set_script(script)
+        cfg = EnOptConfig.model_validate(d, context=tr) if self.prevalidated else d
+        bo = BasicOptimizer(cfg, evaluator, transforms=tr)
+        bo._optimizer_context.plugin_manager = pm
+        bo.run()
+        return {"rows": rows, "x0_seen": seen.get("x0"), "reported": bo.variables}
+
+    def props(self, env, inp, oc):
+        if not oc.ok:
+            return [("no_internal_exception:" + type(oc.exc).__name__, SB(False))]
+        o = oc.value
+        props = [("evaluator_was_called", SB(len(o["rows"]) >= 1))]
+        if not o["rows"]:
+            return props
+        row = np.asarray(vals(o["rows"][0]), dtype=object)[0]
+        xs = np.asarray(vals(o["x0_seen"]), dtype=object)
+        for j in range(2):
+            props.append((f"v{j}.evaluator_asked_at_the_users_initial_value", close(row[j], SR(Fraction(self.x0[j])))))
+            props.append((f"v{j}.algorithm_starts_from_the_image_of_the_initial_value",
+                          close(xs[j] * inp["s"][j] + inp["o"][j], SR(Fraction(self.x0[j])))))
+        if o["reported"] is not None:
+            rep = np.asarray(vals(o["reported"]), dtype=object)
+            props += [(f"v{j}.reported_variables_in_user_domain", close(rep[j], SR(Fraction(self.x0[j])))) for j in range(2)]
         return props
 
     def observe(self, env, inp, oc):
@@ -271,6 +387,12 @@ def build_cases(tier):
     add(N=2, L=1, C=0, lkinds=("both",), var_bounds="none", obj_scaler=False)                  # linear constraints without any finite variable bound
     add(N=2, L=1, C=0, lkinds=("both",), offsets=False, scale_form="size1", obj_scaler=False)  # one scale broadcast over the variables
     add(N=2, L=1, C=0, lkinds=("both",), scale_form="none", obj_scaler=False)                    # offsets only
+    for g in ("absent", "empty", "explicit"):
+        k += 1
+        cases.append(FullValidationCase(f"c11-{k:03d}", g))
+    for pre in (False, True):
+        k += 1
+        cases.append(BasicRouteCase(f"c11-{k:03d}", prevalidated=pre))
     if tier == "thorough":
         for lk in ("both", "lower", "upper", "eq"):
             add(N=2, L=1, C=1, lkinds=(lk,), nkinds=(lk,), ptypes=("relative", "absolute"), boundary=("mirror_both", "none"))
